@@ -67,12 +67,26 @@ func (m *Machine) concInt(x Int, w uint8, what string) uint64 {
 	if x.T == nil {
 		return x.C
 	}
+	// a term concretised earlier on this path keeps its value: answering from the record
+	// takes no decision, so it must not look at (or consume) the replay prefix either
+	if v, ok := m.pinned[x.T.id]; ok {
+		return v
+	}
+	if m.modelValid {
+		// already forced to one value by the path condition (e.g. an assumed equality)?
+		v := m.ts.Eval(x.T, m.model)
+		if kv, ok := m.known[m.ts.Eq(x.T, m.ts.Const(x.T.w, v)).id]; ok && kv {
+			m.pinned[x.T.id] = v
+			return v
+		}
+	}
 	for n := 0; ; n++ {
 		if n > 4096 {
 			unsupported("concretisation of %s enumerates more than 4096 values", what)
 		}
 		v := m.suggest(x.T)
 		if m.decideVal(m.ts.Eq(x.T, m.ts.Const(x.T.w, v)), v) {
+			m.pinned[x.T.id] = v
 			return v
 		}
 	}
